@@ -295,6 +295,27 @@ def check_decoder(res, ctx, rng, name):
                 res.violation('c09-words-of-another-event', f'{name}: a {crossing} window of the same thread {shape} its window '
                               f'(overlapping, not nested): the call renders {t6}, a clean pair renders {text0!r}', case)
                 return
+        # (3e) a call that is RE-STARTED while this one is open, hundreds of records later (its first END was lost): START A,
+        # START this call, 300 records of the thread, START A again, a third call opens and closes, END - the window of this
+        # call still begins at its own START
+        if NAMING_TURN[0] % 3 == 0:
+            filler = [H.A(0x99990004 if k % 2 else 0x2a040000, H.NONE, (k, 0, 0, 0)) for k in range(300)]     # (ids no table names)
+            third = 'BSC_getuid' if name != 'BSC_getuid' else 'BSC_getgid'
+            seq_r = [H.A(crossing, H.START, cw), H.A(name, H.START, start)] + filler + \
+                    [H.A(crossing, H.START, cw), H.A(third, H.START, (0, 0, 0, 0)), H.A(third, H.END, (0, 5, 0, 0))] + nested6 + \
+                    [H.A(name, H.END, end)]
+            try:
+                parser = ev.new_parser()
+                t7 = [str(t) for t in (parser.feed(e) for e in H.materialize(H.on_thread(6, seq_r)))
+                      if t is not None and t.ktraces[0].eventid == ev.eid(name)]
+            except Exception as x_:
+                res.violation(f'c09-raises-{core.exc_name(x_)}', f'{name}: {x_!r} with a re-started {crossing} around it', case)
+                return
+            res.count('restarted_neighbour_variants')
+            if t7 != [text0]:
+                res.violation('c09-words-of-another-event', f'{name}: opened after a {crossing} START that is repeated 300 records '
+                              f'later while the call is still open: the call renders {t7}, a clean pair renders {text0!r}', case)
+                return
         # (4) quoted parameters come from the lookups, never from words
         for k, tok in enumerate(tokens0):
             if tok.startswith('"') and tok.endswith('"') and tok != '""':
